@@ -73,7 +73,7 @@ func runPoint(s *proj.Server, c Case, pt Point) *vfrun.Failure {
 	e.Cancel = cancel
 	defer cancel()
 	kit.Journal(map[string]any{"case": c, "point": pt})
-	before := sched.GqlgenIDs("vh/c05.")
+	before := sched.GqlgenIDs("vh/vfrun.", "pgregory.net/rapid.")
 	done := make(chan *proj.Response, 1)
 	go func() { done <- s.Do(ctx, e, c.Query, c.OpName, c.Variables) }()
 	wl := s.P.Options["worker_limit"]
@@ -88,7 +88,7 @@ func runPoint(s *proj.Server, c Case, pt Point) *vfrun.Failure {
 		if e.Inflight() > 0 {
 			return vfrun.Failf("harness.inconclusive", "%s a universal resolver is still running after %v", what, returnWait)
 		}
-		st, running := sched.SurvivorsIgnoring(2*time.Second, before, "vh/c05.")
+		st, running := sched.SurvivorsIgnoring(2*time.Second, before, "vh/vfrun.", "pgregory.net/rapid.")
 		if len(st) == 0 || running {
 			return vfrun.Failf("harness.inconclusive", "%s response function not back after %v but no stable witness", what, returnWait)
 		}
@@ -97,7 +97,7 @@ func runPoint(s *proj.Server, c Case, pt Point) *vfrun.Failure {
 	}
 	// (b) request ended, context cancelled: nothing of gqlgen may survive
 	cancel()
-	st, running := sched.SurvivorsIgnoring(leakWait, before, "vh/c05.")
+	st, running := sched.SurvivorsIgnoring(leakWait, before, "vh/vfrun.", "pgregory.net/rapid.")
 	if running {
 		return vfrun.Failf("harness.inconclusive", "%s goroutines still running %v after the request ended", what, leakWait)
 	}
